@@ -4,11 +4,11 @@ From PV Require Import Bytes C12_gen C12.
 Import ListNotations.
 Open Scope Z_scope.
 
-Definition st_of (sm au : bool) (a : ah_kind) (s : bool) : state := mkState sm au a s [].
+Definition st_of (sm au : bool) (a : ah_kind) (s rk : bool) : state := mkState sm au a s rk [].
 
 Lemma state_shape st : expected st = [] ->
-  st = st_of (server_mode st) (authed st) (ah st) (srt st).
-Proof. destruct st as [sm au a s e]; cbn; intros ->; reflexivity. Qed.
+  st = st_of (server_mode st) (authed st) (ah st) (srt st) (rekey st).
+Proof. destruct st as [sm au a s rk e]; cbn; intros ->; reflexivity. Qed.
 
 Lemma in_types256 p : 0 <= p < 256 -> In p types256.
 Proof.
@@ -18,7 +18,8 @@ Qed.
 
 (* an unhandled type (in the independent sense of `unhandled`) reaches the fallback branch *)
 Lemma dispatch_unhandled st p sq :
-  expected st = [] -> unhandled st p = true -> dispatch st p sq = fallback p sq.
+  expected st = [] -> unhandled st p = true ->
+  dispatch st p sq = fallback (send_blocked (rekey st)) p sq.
 Proof.
   intros He Hu. unfold unhandled, special in Hu.
   repeat (apply andb_true_iff in Hu; destruct Hu as [Hu ?]).
@@ -27,15 +28,18 @@ Proof.
   unfold dispatch. rewrite Hi, Hdc, Hd, He. unfold ladder. rewrite H1, H0, H. reflexivity.
 Qed.
 
-(* the finite sweep: in every state, every unhandled type number 0..255 has a name or the lookup
-   tolerates unnamed numbers *)
+(* the finite sweep: in every state, every unhandled type number 0..255 passes the reader's logging,
+   has a name or a tolerant lookup in the fallback, and the reply is sent without waiting *)
 Definition name_safe (p : Z) : bool := negb name_lookup_strict || mem p msg_names.
 
-Definition sweep_state (st : state) : bool :=
-  forallb (fun p => implb (unhandled st p) (name_safe p)) types256.
+Definition type_safe (st : state) (p : Z) : bool :=
+  reader_ok p && name_safe p && negb (send_blocked (rekey st)).
 
-Lemma sweep_all sm au a s : sweep_state (st_of sm au a s) = true.
-Proof. destruct sm, au, a, s; vm_compute; reflexivity. Qed.
+Definition sweep_state (st : state) : bool :=
+  forallb (fun p => implb (unhandled st p) (type_safe st p)) types256.
+
+Lemma sweep_all sm au a s rk : sweep_state (st_of sm au a s rk) = true.
+Proof. destruct sm, au, a, s, rk; vm_compute; reflexivity. Qed.
 
 Lemma name_of_safe p : name_safe p = true -> name_of p = Ok tt.
 Proof.
@@ -43,19 +47,19 @@ Proof.
   rewrite orb_false_r in H. apply negb_true_iff in H. rewrite H. reflexivity.
 Qed.
 
-Lemma unhandled_name_safe st p :
-  expected st = [] -> 0 <= p < 256 -> unhandled st p = true -> name_safe p = true.
+Lemma unhandled_type_safe st p :
+  expected st = [] -> 0 <= p < 256 -> unhandled st p = true -> type_safe st p = true.
 Proof.
-  intros He Hp Hu. rewrite (state_shape st He) in Hu.
-  pose proof (sweep_all (server_mode st) (authed st) (ah st) (srt st)) as Hs.
+  intros He Hp Hu. rewrite (state_shape st He) in Hu |- *.
+  pose proof (sweep_all (server_mode st) (authed st) (ah st) (srt st) (rekey st)) as Hs.
   unfold sweep_state in Hs. rewrite forallb_forall in Hs.
   specialize (Hs p (in_types256 p Hp)). rewrite Hu in Hs. exact Hs.
 Qed.
 
 Lemma fallback_reply p sq :
   name_safe p = true -> 0 <= sq < 2 ^ 32 ->
-  fallback p sq = Fallback (if p =? MSG_UNIMPLEMENTED then None
-                            else Some (MSG_UNIMPLEMENTED :: be_encode 4 sq)).
+  fallback false p sq = Fallback (if p =? MSG_UNIMPLEMENTED then None
+                                  else Some (MSG_UNIMPLEMENTED :: be_encode 4 sq)).
 Proof.
   intros Hn Hs. unfold fallback. rewrite (name_of_safe p Hn).
   destruct (p =? MSG_UNIMPLEMENTED); cbn [negb]; [reflexivity|].
@@ -63,22 +67,26 @@ Proof.
   rewrite E. reflexivity.
 Qed.
 
-Lemma dispatch_unhandled_reply st p sq :
+Lemma receive_unhandled_reply st p sq :
   expected st = [] -> 0 <= p < 256 -> 0 <= sq < 2 ^ 32 -> unhandled st p = true ->
-  dispatch st p sq = Fallback (if p =? MSG_UNIMPLEMENTED then None
-                               else Some (MSG_UNIMPLEMENTED :: be_encode 4 sq)).
+  receive st p sq = Fallback (if p =? MSG_UNIMPLEMENTED then None
+                              else Some (MSG_UNIMPLEMENTED :: be_encode 4 sq)).
 Proof.
-  intros He Hp Hs Hu. rewrite (dispatch_unhandled st p sq He Hu).
-  apply fallback_reply; [eapply unhandled_name_safe; eauto | exact Hs].
+  intros He Hp Hs Hu.
+  pose proof (unhandled_type_safe st p He Hp Hu) as Ht. unfold type_safe in Ht.
+  apply andb_true_iff in Ht as [Ht Hb]. apply andb_true_iff in Ht as [Hr Hn].
+  apply negb_true_iff in Hb.
+  unfold receive. rewrite Hr. rewrite (dispatch_unhandled st p sq He Hu), Hb.
+  apply fallback_reply; assumption.
 Qed.
 
 Lemma unimplemented st p sq :
   expected st = [] -> 0 <= p < 256 -> 0 <= sq < 2 ^ 32 ->
   unhandled st p = true -> p <> MSG_UNIMPLEMENTED ->
-  dispatch st p sq = Fallback (Some (MSG_UNIMPLEMENTED :: be_encode 4 sq)) /\
-  alive (dispatch st p sq) = true.
+  receive st p sq = Fallback (Some (MSG_UNIMPLEMENTED :: be_encode 4 sq)) /\
+  alive (receive st p sq) = true.
 Proof.
-  intros He Hp Hs Hu Hn. rewrite (dispatch_unhandled_reply st p sq He Hp Hs Hu).
+  intros He Hp Hs Hu Hn. rewrite (receive_unhandled_reply st p sq He Hp Hs Hu).
   destruct (p =? MSG_UNIMPLEMENTED) eqn:E; [lia|]. split; reflexivity.
 Qed.
 
@@ -87,33 +95,40 @@ Lemma reply_carries_seqno sq : 0 <= sq < 2 ^ 32 -> be_decode (be_encode 4 sq) = 
 Proof. intros H. apply be_decode_encode. change (256 ^ Z.of_nat 4) with (2 ^ 32). exact H. Qed.
 
 (* an inbound UNIMPLEMENTED is never answered, whatever the state *)
-Lemma unimpl_unhandled sm au a s : unhandled (st_of sm au a s) MSG_UNIMPLEMENTED = true.
-Proof. destruct sm, au, a, s; vm_compute; reflexivity. Qed.
+Lemma unimpl_unhandled sm au a s rk : unhandled (st_of sm au a s rk) MSG_UNIMPLEMENTED = true.
+Proof. destruct sm, au, a, s, rk; vm_compute; reflexivity. Qed.
 
 Lemma unimpl_name_safe : name_safe MSG_UNIMPLEMENTED = true.
 Proof. vm_compute. reflexivity. Qed.
 
+Lemma unimpl_reader_ok : reader_ok MSG_UNIMPLEMENTED = true.
+Proof. vm_compute. reflexivity. Qed.
+
+Lemma fallback_unimpl b sq : fallback b MSG_UNIMPLEMENTED sq = Fallback None.
+Proof. unfold fallback. rewrite (name_of_safe _ unimpl_name_safe), Z.eqb_refl. reflexivity. Qed.
+
 Lemma no_reply_to_unimplemented st sq :
   expected st = [] ->
-  dispatch st MSG_UNIMPLEMENTED sq = Fallback None /\ alive (dispatch st MSG_UNIMPLEMENTED sq) = true.
+  receive st MSG_UNIMPLEMENTED sq = Fallback None /\ alive (receive st MSG_UNIMPLEMENTED sq) = true.
 Proof.
   intros He.
   assert (Hu : unhandled st MSG_UNIMPLEMENTED = true)
     by (rewrite (state_shape st He); apply unimpl_unhandled).
-  rewrite (dispatch_unhandled st _ sq He Hu). unfold fallback.
-  rewrite (name_of_safe _ unimpl_name_safe). rewrite Z.eqb_refl. split; reflexivity.
+  unfold receive. rewrite unimpl_reader_ok.
+  rewrite (dispatch_unhandled st _ sq He Hu), fallback_unimpl. split; reflexivity.
 Qed.
 
 Lemma never_answers_unimplemented st sq m :
-  dispatch st MSG_UNIMPLEMENTED sq <> Fallback (Some m).
+  receive st MSG_UNIMPLEMENTED sq <> Fallback (Some m).
 Proof.
   destruct (expected st) as [|e es] eqn:He.
   - rewrite (proj1 (no_reply_to_unimplemented st sq He)). discriminate.
-  - assert (Hu : unhandled (st_of (server_mode st) (authed st) (ah st) (srt st)) MSG_UNIMPLEMENTED = true)
+  - unfold receive. rewrite unimpl_reader_ok.
+    assert (Hu : unhandled (st_of (server_mode st) (authed st) (ah st) (srt st) (rekey st)) MSG_UNIMPLEMENTED = true)
       by apply unimpl_unhandled.
-    pose proof (dispatch_unhandled (st_of (server_mode st) (authed st) (ah st) (srt st))
+    pose proof (dispatch_unhandled (st_of (server_mode st) (authed st) (ah st) (srt st) (rekey st))
                   MSG_UNIMPLEMENTED sq eq_refl Hu) as Hd.
-    unfold dispatch in *. cbn [expected st_of] in Hd. rewrite He.
+    unfold dispatch in *. cbn [expected st_of rekey] in Hd. rewrite He.
     change (MSG_UNIMPLEMENTED =? MSG_IGNORE) with false in *.
     change (MSG_UNIMPLEMENTED =? MSG_DISCONNECT) with false in *.
     change (MSG_UNIMPLEMENTED =? MSG_DEBUG) with false in *.
@@ -121,16 +136,17 @@ Proof.
     destruct (negb (mem MSG_UNIMPLEMENTED (e :: es))); [discriminate|].
     change ((30 <=? MSG_UNIMPLEMENTED) && (MSG_UNIMPLEMENTED <=? 41)) with false. cbv iota.
     assert (Hl : ladder st MSG_UNIMPLEMENTED sq =
-                 ladder (st_of (server_mode st) (authed st) (ah st) (srt st)) MSG_UNIMPLEMENTED sq)
+                 ladder (st_of (server_mode st) (authed st) (ah st) (srt st) (rekey st)) MSG_UNIMPLEMENTED sq)
       by (destruct st; reflexivity).
-    rewrite Hl, Hd. unfold fallback. rewrite (name_of_safe _ unimpl_name_safe), Z.eqb_refl. discriminate.
+    rewrite Hl, Hd, fallback_unimpl. discriminate.
 Qed.
 
 (* a handled type never reaches the fallback: `unhandled` is exactly the fallback's domain *)
 Lemma handled_not_fallback st p sq rep :
-  expected st = [] -> unhandled st p = false -> dispatch st p sq <> Fallback rep.
+  expected st = [] -> unhandled st p = false -> receive st p sq <> Fallback rep.
 Proof.
-  intros He Hu. unfold dispatch, ladder. rewrite He. unfold unhandled, special in Hu.
+  intros He Hu. unfold receive. destruct (reader_ok p); [|discriminate].
+  unfold dispatch, ladder. rewrite He. unfold unhandled, special in Hu.
   destruct (p =? MSG_IGNORE); [discriminate|].
   destruct (p =? MSG_DISCONNECT); [discriminate|].
   destruct (p =? MSG_DEBUG); [discriminate|].
@@ -153,17 +169,17 @@ Proof.
   induction pkts as [|p r IH]; intros sq He Hs Hall; [reflexivity|].
   inversion Hall as [|? ? [Hp Hu] Hr]; subst.
   cbn [run_stream expected_replies].
-  rewrite (dispatch_unhandled_reply st p sq He Hp Hs Hu).
+  rewrite (receive_unhandled_reply st p sq He Hp Hs Hu).
   rewrite (IH (next_seq sq) He (next_seq_range sq) Hr).
   destruct (p =? MSG_UNIMPLEMENTED); reflexivity.
 Qed.
 
 (* non-vacuity: there are unhandled types without a debug name in every state *)
-Lemma unnamed_unhandled_exists sm au a s :
-  exists p, 0 <= p < 256 /\ unhandled (st_of sm au a s) p = true /\ mem p msg_names = false.
+Lemma unnamed_unhandled_exists sm au a s rk :
+  exists p, 0 <= p < 256 /\ unhandled (st_of sm au a s rk) p = true /\ mem p msg_names = false.
 Proof.
-  assert (H : existsb (fun p => unhandled (st_of sm au a s) p && negb (mem p msg_names)) types256 = true)
-    by (destruct sm, au, a, s; vm_compute; reflexivity).
+  assert (H : existsb (fun p => unhandled (st_of sm au a s rk) p && negb (mem p msg_names)) types256 = true)
+    by (destruct sm, au, a, s, rk; vm_compute; reflexivity).
   apply existsb_exists in H as [p [Hin Hp]]. exists p.
   apply andb_true_iff in Hp as [H1 H2]. apply negb_true_iff in H2.
   unfold types256 in Hin. apply in_map_iff in Hin as [n [<- Hn]]. apply in_seq in Hn.
@@ -172,9 +188,9 @@ Qed.
 
 (* the defect repaired by fixes/C12-msg-names-keyerror.diff: with the subscript lookup the
    transport dies on some unhandled type, in every state *)
-Lemma v0_dies sm au a s sq :
-  exists p, 0 <= p < 256 /\ unhandled (st_of sm au a s) p = true /\ fallback_v0 p sq = Die KeyErr.
+Lemma v0_dies sm au a s rk sq :
+  exists p, 0 <= p < 256 /\ unhandled (st_of sm au a s rk) p = true /\ fallback_v0 p sq = Die KeyErr.
 Proof.
-  destruct (unnamed_unhandled_exists sm au a s) as [p [Hp [Hu Hn]]].
+  destruct (unnamed_unhandled_exists sm au a s rk) as [p [Hp [Hu Hn]]].
   exists p. repeat split; try assumption; try lia. unfold fallback_v0. rewrite Hn. reflexivity.
 Qed.
